@@ -15,6 +15,7 @@ def map_value(row):
 
 
 def logged_map(row, *args, **kwargs):
+    """f(row), or f(row) * scale + offset when compute() is given a positional offset and / or scale=..."""
     path = os.environ.get(LOG_ENV)
     if path:
         fd = os.open(path, os.O_WRONLY | os.O_APPEND | os.O_CREAT)
@@ -22,7 +23,7 @@ def logged_map(row, *args, **kwargs):
             os.write(fd, ('%d\n' % int(round(float(np.real(np.asarray(row)[0]))))).encode())
         finally:
             os.close(fd)
-    return map_value(row)
+    return map_value(row) * float(kwargs.get('scale', 1)) + float(args[0] if args else 0)
 
 
 def read_log(path, m):
